@@ -45,7 +45,15 @@ def main():
     finally:
         shutil.rmtree(tmp, ignore_errors=True)
         # Gen/ may have been regenerated from the mutant: restore it from /repo
-        ext = os.path.join(VERIF, "harness", "extract.py")
-        if os.path.exists(ext):
-            subprocess.run(["/venv/bin/python", ext], cwd=VERIF, capture_output=True)
+        # (all generated files: C11 tables, source translation, per-property extractors) - under the lean lock
+        env = {k: v for k, v in os.environ.items() if k not in ("VERIF_REPO", "VERIF_EVIDENCE_DIR")}
+        subprocess.run(["/venv/bin/python", "-c",
+                        "import sys; sys.path.insert(0, '.'); from harness import leanside\n"
+                        "import subprocess, json, importlib\n"
+                        "with leanside.lock():\n"
+                        "    subprocess.run(['/venv/bin/python', 'harness/extract.py'], capture_output=True)\n"
+                        "    subprocess.run(['/venv/bin/python', 'harness/translate.py'], capture_output=True)\n"
+                        "    for p in json.load(open('harness/ready.json')):\n"
+                        "        importlib.import_module('harness.props.' + p)\n"],
+                       cwd=VERIF, capture_output=True, env=env)
 sys.exit(main())
